@@ -54,9 +54,10 @@ def main():
                 continue
             res = dict(property=meta["property"], tier=a.tier, checks={})
             if a.demo and os.path.exists(os.path.join(d, "demo.py")):
-                r1 = sh(f"cd {wt} && /venv/bin/python {os.path.join(d, 'demo.py')}")
-                r0 = sh(f"cd {REPO} && /venv/bin/python {os.path.join(d, 'demo.py')}")
-                res["demo"] = dict(patched_exit=r1.returncode, unpatched_exit=r0.returncode)
+                os.makedirs(f"{wt}/_seed/1", exist_ok=True)
+                sh(f"cp {os.path.join(d, 'demo.py')} {wt}/_seed/1/demo.py")
+                r1 = sh(f"cd {wt} && /venv/bin/python _seed/1/demo.py")
+                res["demo"] = dict(patched_exit=r1.returncode)
             for prop in [meta["property"]] + meta.get("also_check", []):
                 if not os.path.exists(os.path.join(ROOT, "harness", prop.lower() + ".py")):
                     res["checks"][prop] = dict(exit=None, note="no harness")
